@@ -1303,6 +1303,237 @@ def run_sample(case):
     return {"nt": net["n"] >= 3, "cls": cls, "err": err}
 
 
+# ---------------------------------------------------------------------------
+# 16. deep chains of structured tensors: the stop rules must not end a run whose front is still travelling
+# ---------------------------------------------------------------------------
+
+@st.composite
+def s_deep(draw, tier):
+    flavour = draw(st.sampled_from(["d1", "d1", "hd1", "hd1", "hv1", "hv1", "d2", "d2", "l1", "l2"]))
+    return {"flavour": flavour, "L": draw(st.integers(2, 44 if flavour not in ("l1", "l2") else 30)),
+            "D": draw(st.sampled_from([2, 2, 3])),
+            "mid": draw(st.sampled_from(["eye", "perm", "scaledperm", "scaledperm", "generic"])),
+            "update": "parallel" if flavour == "hv1" else draw(st.sampled_from(["parallel", "parallel", "sequential"])),
+            "tol": draw(st.sampled_from([BP_TOL, 5e-6])), "reverse": draw(st.booleans()), "seed": draw(A.seeds)}
+
+
+def deep_chain(case, two):
+    """end vector - L structured matrices - end vector (every tensor x a positive vector on its own dangling label for
+    the two-norm flavours); returns tensors [(array, inds)] in storage order and the exact value / norm squared"""
+    rng = np.random.default_rng(int(case["seed"]))
+    L, D = case["L"], case["D"]
+    mats = []
+    for _ in range(L):
+        if case["mid"] == "generic":
+            m = rng.uniform(0.2, 1.0, size=(D, D))
+        else:
+            m = np.eye(D)
+            if case["mid"] != "eye":
+                m = m[:, rng.permutation(D)]
+            if case["mid"] == "scaledperm":
+                m = m * rng.uniform(0.5, 2.0, size=D)
+        mats.append(m)
+    a, b = rng.uniform(0.5, 2.0, size=D), rng.uniform(0.5, 2.0, size=D)
+    v = a.copy()
+    for m in mats:
+        v = v @ m
+    z = float(v @ b)
+    cores = [(a, ("e0",))] + [(m, (f"e{i}", f"e{i + 1}")) for i, m in enumerate(mats)] + [(b, (f"e{L}",))]
+    out, n2 = [], z * z
+    for i, (arr, inds) in enumerate(cores):
+        if two:
+            ph = rng.uniform(0.5, 1.5, size=2)
+            arr = np.multiply.outer(arr, ph)
+            inds = inds + (f"k{i}",)
+            n2 *= float(ph @ ph)
+        out.append((arr, inds, i))
+    if case["reverse"]:
+        out = out[::-1]
+    return out, (n2 if two else z)
+
+
+def run_deep(case):
+    Q, BP = qt()
+    flavour = case["flavour"]
+    two = flavour in ("d2", "l2")
+    ts, ref = deep_chain(case, two)
+    klass = {"d1": BP.D1BP, "hd1": BP.HD1BP, "hv1": BP.HV1BP, "l1": BP.L1BP, "d2": BP.D2BP, "l2": BP.L2BP}[flavour]
+    site_tags = [f"I{i}" for _, _, i in ts]
+
+    def value(**runkw):
+        tn = Q.TensorNetwork([Q.Tensor(a.copy(), inds=ii, tags=[f"I{i}"]) for a, ii, i in ts])
+        b = klass(tn, site_tags=site_tags, update=case["update"]) if flavour in ("l1", "l2") else klass(tn, update=case["update"])
+        info = {}
+        b.run(max_iterations=MAXIT, tol=case["tol"], info=info, **runkw)
+        return complex(b.contract()), info
+
+    got, info = value()
+    tol = TOL if case["tol"] == BP_TOL else 1e-3   # the default message tolerance 5e-6 only promises a few digits
+    err = rel_scalar(got, ref)
+    if not err <= tol:
+        # classify: is it the rolling-mean stop rule (tol_rolling_diff = tol by default; 0 switches it off)?
+        got2, info2 = value(tol_rolling_diff=0.0)
+        if rel_scalar(got2, ref) <= tol and info.get("converged") and info.get("max_mdiff", 0) > case["tol"]:
+            raise Violation("rolling-diff-false-convergence", flavour=flavour, update=case["update"])
+        raise Violation("value", flavour=flavour, err=err, update=case["update"], converged=bool(info.get("converged")),
+                        iterations=info.get("iterations"))
+    cls = ["flavour=" + flavour, "mid=" + case["mid"], "update=" + case["update"], "L>=18" if case["L"] >= 18 else "L<18",
+           "tol=default" if case["tol"] != BP_TOL else "tol=1e-12"]
+    return {"nt": case["L"] >= 18 and case["mid"] != "generic", "cls": cls, "err": err}
+
+
+# ---------------------------------------------------------------------------
+# 17. D2BP.gate_: after applying gates through the BP object the object still describes the gated state
+# ---------------------------------------------------------------------------
+
+@st.composite
+def s_gate(draw, tier):
+    net = draw(s_net(tier, phys="all", max_n=7, kinds=KINDS_DENSE, exponents=(0.0,), forest=False))
+    net["phys"] = [2] * net["n"]
+    # bonds <= 2 = the dangling size: every message is full rank.  gate_ gauges with sqrt(message) + 1e-12 and un-gauges with
+    # the inverse; on rank-deficient messages (bond 3 next to a leaf) that costs ~1e-8, only 70x below the tolerance
+    for at in net["attach"]:
+        at[2] = min(at[2], 2)
+    o = draw(s_opts("d2"))
+    o["diis"] = False
+    # single-site gates in a minority of the cases only: while finding C14-p is open every such case ends in the known failure
+    ops = [[draw(st.sampled_from([2, 2, 2, 2, 1])), draw(st.integers(0, 63)), draw(A.seeds), draw(st.booleans()), draw(st.booleans())]
+           for _ in range(draw(st.integers(1, 3)))]
+    return {"net": net, "opts": o, "ops": ops, "rerun": draw(st.booleans())}
+
+
+def run_gate(case):
+    Q, BP = qt()
+    net, o = case["net"], case["opts"]
+    arrs, sizes, deg, group = build_arrays(net)
+    psi, outer, n2, mag = exact_psi(net, arrs, sizes)
+    n = net["n"]
+    parent = geometry(net)[3]
+    cplx = net["kind"] == "complex"
+    # the gates and the reference state
+    ref = np.asarray(psi, dtype=np.complex128)
+    gates = []
+    for k, pick, gseed, unitary, flip in case["ops"]:
+        i = 1 + pick % (n - 1)   # connected tree: every tensor >= 1 has a parent
+        where = [i]
+        if k == 2 and parent[i] >= 0:
+            where = [parent[i], i] if flip else [i, parent[i]]
+        d = 2 ** len(where)
+        G = A.make_matrix(gseed, "unitary" if unitary else "gauss", d, d, "complex128" if cplx else "float64")
+        if not unitary:
+            G = G + 2.0 * np.eye(d)  # keep it well conditioned
+        ax = [outer.index(f"k{s}") for s in where]
+        g = np.asarray(G, dtype=np.complex128).reshape([2] * (2 * len(where)))
+        ref = np.moveaxis(np.tensordot(g, ref, axes=(list(range(len(where), 2 * len(where))), ax)), list(range(len(where))), ax)
+        gates.append((G, tuple(where), unitary))
+    n2g = float(np.sum(np.abs(ref) ** 2))
+
+    def measure(o):
+        tn = build_tn(net, arrs, group, Q)
+        tn = tn.view_as(Q.TensorNetworkGenVector, site_tag_id="I{}", site_ind_id="k{}", sites=range(n))
+        ctor, runkw = run_kwargs("d2", o, tn, net)
+        b = BP.D2BP(tn, **ctor)
+        b.run(**runkw)
+        for G, where, unitary in gates:
+            b.gate_(G, where)
+            if case["rerun"]:
+                b.run(**runkw)
+        b.run(**runkw)
+        got = einsum_value(carrs(tn_tensors(b.tn)), outer)
+        e = rel_err(got, ref)
+        if not e <= TOL:
+            raise Violation("gated-network", err=e, sites=[len(w) for _, w, _ in gates])
+        worst = e
+        ev = rel_scalar(complex(b.contract()), n2g)
+        worst = max(worst, ev)
+
+        def fresh_ok():
+            # a new BP object on the gated network: is only the old object's cached state out of date?
+            b2 = BP.D2BP(b.tn.copy(), **{k: v for k, v in ctor.items() if k != "messages"})
+            b2.run(**runkw)
+            return rel_scalar(complex(b2.contract()), n2g) <= TOL
+
+        if not ev <= TOL:
+            raise Violation("value-after-gate", err=ev, sites=sorted({len(w) for _, w, _ in gates}), kind=net["kind"],
+                            fresh_ok=fresh_ok())
+        for G, where, unitary in gates:
+            s0 = where[0]
+            rho = np.asarray(b.partial_trace((s0,)))
+            er = rel_err(rho, exact_rdm(ref, outer, [f"k{s0}"]))
+            worst = max(worst, er)
+            if not er <= TOL:
+                raise Violation("partial-trace-after-gate", err=er, sites=sorted({len(w) for _, w, _ in gates}), fresh_ok=fresh_ok())
+        return worst
+
+    try:
+        worst = with_diagnosis(measure, o, "d2", net, sizes)
+    except Violation as v:
+        if (v.reason in ("value-after-gate", "partial-trace-after-gate") and v.info.get("fresh_ok")
+                and any(len(w) == 1 for _, w, _ in gates)):
+            # the gated network is right and a fresh D2BP on it is exact: the object that applied a single-site gate is stale
+            raise Violation("single-site-gate-stale", clause=v.reason) from None
+        raise
+    cls = net_classes(net, deg) + opt_classes(o) + [f"gate{len(w)}" + ("u" if u else "g") for _, w, u in gates] + \
+          (["rerun-between"] if case["rerun"] else [])
+    return {"nt": net["n"] >= 3, "cls": cls, "err": worst}
+
+
+# ---------------------------------------------------------------------------
+# 18. hyper-edge of degree >= 3 where one incoming message has an exactly zero entry (integer data, exact cancellation)
+# ---------------------------------------------------------------------------
+
+@st.composite
+def s_hyperzero(draw, tier):
+    small = st.integers(1, 4)
+    return {"flavour": draw(st.sampled_from(["hd1", "hv1"])), "p": draw(small), "q": draw(small), "r": draw(small),
+            "b": [draw(small), draw(small)], "c": [draw(small), draw(small)], "extra": draw(st.integers(0, 2)),
+            "zero_at": draw(st.integers(0, 1)), "update": draw(st.sampled_from(["sequential", "parallel"])),
+            "cancel": draw(st.booleans())}
+
+
+def run_hyperzero(case):
+    Q, BP = qt()
+    from quimb.tensor.belief_propagation import bp_common
+
+    p, q, r = float(case["p"]), float(case["q"]), float(case["r"])
+    # A[x, y] contracted with d = (1, 1) on y gives the message (0, q + r) (or reversed) to the hyper label x: the zero is an
+    # exact cancellation p - p, every entry of A is non-zero
+    Aarr = np.array([[p, -p if case["cancel"] else p + 1.0], [q, r]])   # (control without cancellation: no zero entry)
+    if case["zero_at"]:
+        Aarr = Aarr[::-1].copy()
+    arrs = [(Aarr, ("x", "y")), (np.array(case["b"], dtype=float), ("x",)), (np.array(case["c"], dtype=float), ("x",)),
+            (np.ones(2), ("y",))]
+    for k in range(case["extra"]):
+        arrs.append((np.array([1.0 + k, 2.0]), ("x",)))
+    flavour = case["flavour"]
+    tn = Q.TensorNetwork([Q.Tensor(a.copy(), inds=ii, tags=[f"I{i}"]) for i, (a, ii) in enumerate(arrs)])
+    z = complex(einsum_value(carrs(arrs), ()))
+    if z == 0:
+        raise Reject("zero value")
+    if flavour == "hd1":
+        b = BP.HD1BP(tn, update=case["update"])
+        b.run(max_iterations=MAXIT, tol=BP_TOL)
+        messages = b.messages
+        val = complex(b.contract())
+    else:
+        b = BP.HV1BP(tn)
+        b.run(max_iterations=MAXIT, tol=BP_TOL)
+        messages = b.get_messages_dense()
+        val = complex(b.contract())
+    worst = rel_scalar(val, z)
+    if not worst <= TOL:
+        raise Violation("value", flavour=flavour, err=worst)
+    for ix in ("x", "y"):
+        ref = normalised(einsum_value(carrs(arrs), (ix,)))
+        got = np.asarray(bp_common.compute_index_marginal(tn, ix, messages))
+        e = rel_err(got, ref)
+        worst = max(worst, e)
+        if not e <= TOL:
+            raise Violation("index-marginal-zero-entry" if case["cancel"] else "index-marginal", flavour=flavour, label=ix, err=e)
+    return {"nt": True, "cls": ["flavour=" + flavour, f"degree={3 + case['extra']}", "update=" + case["update"],
+                                                "cancel" if case["cancel"] else "control"], "err": worst}
+
+
 SUBCHECKS = [
     SubCheck("d1bp.contract", run_contract1("d1"), s_contract1("d1"), examples=(300, 3000), shards=(1, 4),
              rule="contract_d1bp on trees/forests (rank-0 components incl.) x all options vs einsum; nt as RULE"),
@@ -1339,6 +1570,18 @@ SUBCHECKS = [
              rule="sample_hd1bp / sample_hv1bp (positive data, hyper-edges, optional label subset) and sample_d2bp (dangling size 2) "
                   "with explicit seed: returned omega == exact probability of the returned configuration, returned network == the "
                   "selected slice; nt: >=3 tensors"),
+    SubCheck("deep_chain.schedule", run_deep, s_deep, examples=(150, 1500), shards=(1, 4),
+             rule="chains of 2-44 structured matrices (identity, permutation, scaled permutation; generic as control) between two "
+                  "random vectors, 6 flavours (class API), parallel / sequential, tol 1e-12 or the default 5e-6, storage order "
+                  "forward / reversed: contract() == exact chain product (1e-6, 1e-3 at the default tol); nt: L>=18, structured"),
+    SubCheck("d2bp.gate", run_gate, s_gate, examples=(120, 1500), shards=(1, 4),
+             rule="1-3 single-site / bonded two-site gates (unitary or well conditioned generic) applied with D2BP.gate_ (no truncation), "
+                  "optionally re-running in between: bp.tn == gated dense vector, contract() == its norm squared, partial_trace of the "
+                  "gated site == exact; nt: >=3 tensors"),
+    SubCheck("hyper.zero_entry", run_hyperzero, s_hyperzero, examples=(60, 600), shards=(1, 2),
+             rule="constructed integer networks: a hyper label of degree 3-5 where one incoming message has an exactly zero entry by "
+                  "cancellation (no tensor entry is zero; half are controls without cancellation): value and index marginals "
+                  "of HD1BP / HV1BP == einsum; all nt"),
     SubCheck("regions.counting", run_regions, s_regions, examples=(1000, 8000), shards=(1, 4),
              rule="RegionGraph / gen_region_counts with autocomplete on random region sets: counting numbers of the regions "
                   "containing any node sum to 1; nt: >=3 distinct generating regions"),
